@@ -20,6 +20,7 @@ other.
 
 from __future__ import annotations
 
+import copy
 import math
 import re
 import warnings
@@ -627,6 +628,38 @@ def gen_cases(g: Gen, tier: str) -> list[dict[str, Any]]:
     for name in ("sort", "sort_natural", "sort_numeric", "uniq", "compact", "map", "sum"):
         add("seq", name, hs, ("n",))
         add("seq", name, hs, (), ("n", False, None))
+    # ties and missing properties in the arrow-function sorts (stability; the items themselves are
+    # never compared: hashes would raise, strings would lose their input order)
+    ties_s = [{"k": "b", "id": 3}, {"id": 2}, {"k": "a", "id": 1}, {"k": "b", "id": 0}, {"id": -1},
+              {"k": "a", "id": 9}, {"k": "B", "id": 4}]
+    ties_n = [{"k": 2, "id": 3}, {"k": 1, "id": 1}, {"k": 2, "id": 0}, {"k": 1, "id": 9}, {"k": 2.0, "id": 5},
+              {"k": True, "id": 6}, {"k": 2, "id": -4}]
+    ties_m = ties_n[:3] + [{"id": 7}, {"k": "x10", "id": 8}, {"id": 6}, {"k": "y2", "id": 2}, {"k": 10, "id": 1}]
+    sized = ["bb", "aa", "c", "ab", "d", "", "ba", "e"]
+    for name in ("sort", "sort_natural", "sort_numeric"):
+        for left in ((ties_s, ties_n, ties_m) if name != "sort" else (ties_s, ties_n)):
+            add("seq", name, left, (), ("k", False, None))
+            add("seq", name, left, ("k",))
+        add("seq", name, sized, (), ("size", False, None))
+        add("seq", name, list(reversed(sized)), (), ("size", False, None))
+    add("seq", "sort", ties_m, (), ("k", False, None))
+    # uniq is by ==, not by repr: hashes equal up to insertion order, 5 vs 5.0 vs true vs "5"
+    u1 = [{"a": 1, "b": 2}, {"b": 2, "a": 1}, {"a": 1, "b": 2.0}, {"a": True, "b": 2}, {"a": 1, "b": 3},
+          {"a": 1}, {"b": 2, "a": 1, "c": None}]
+    u2 = [{"k": {"a": 1, "b": 2}, "id": 0}, {"k": {"b": 2, "a": 1}, "id": 1}, {"k": [5, 1], "id": 2},
+          {"k": [5.0, 1], "id": 3}, {"k": 5, "id": 4}, {"k": 5.0, "id": 5}, {"id": 6}, {"id": 7}, {"k": None, "id": 8},
+          {"k": "5", "id": 9}, {"k": [5, [1]], "id": 10}, {"k": [5.0, [True]], "id": 11}, {"k": None, "id": 12}]
+    add("seq", "uniq", u1, ())
+    add("seq", "uniq", [5, 5.0, "5", True, 1, 1.0, 0, False, 0.0, None, "", 5], ())
+    add("seq", "uniq", u2, ())
+    add("seq", "uniq", u2, ("k",))
+    add("seq", "uniq", u2, (), ("k", False, None))
+    add("seq", "uniq", u1, ("a",))
+    add("seq", "uniq", u1, (), ("b", False, None))
+    deep: Any = [5, [5.0]]
+    for _ in range(6):
+        deep = [deep]
+    add("seq", "uniq", [deep, [[[[[[[5.0, [5]]]]]]]], 5], ())
     add("seq", "sort_natural", ["b", "A", "a", "B", "Ab", "aB", "ab", "AB", "Zz", "zz", "10", "9"], ())
     add("seq", "sort_natural", ["b", 10, "A", 9, "a", None, True], ())
     add("seq", "sort_numeric", ["z10", "z9", "x-2y", "a1b22", "a1b3", 5, "5", -3, "none", True, 2.5], ())
@@ -1091,6 +1124,111 @@ class Laws:
                     self.expect("slice-python", len(got) == len(exp) and all(ident(a, b) for a, b in zip(got, exp)),
                                 "slice differs from Python slicing", **rp, start=st, length=ln)
 
+    # -- caseless sort on non-ASCII text (the model carries ASCII case only: oracle only)
+    def natural_laws(self, words: list[str]) -> None:
+        rp = {"words": words}
+        want = sorted(words, key=lambda w: w.lower())
+        got = self.f("sort_natural", words)
+        self.expect("sort_natural-is-sorted-by-lower", len(got) == len(want) and all(a is b for a, b in zip(got, want)),
+                    "sort_natural differs from sorted(key=str.lower) (stable)", **rp, got=got, want=want)
+        hs = [{"k": w, "id": i} for i, w in enumerate(words)]
+        hs.insert(len(hs) // 2, {"id": -1})
+        hs.append({"id": -2})
+        wantk = sorted(hs, key=lambda d: str(d.get("k", MAX_CH)).lower())
+        gotk = self.f("sort_natural", hs, "k")
+        self.expect("sort_natural-key-is-sorted-by-lower", len(gotk) == len(wantk) and
+                    all(a is b for a, b in zip(gotk, wantk)),
+                    "sort_natural: 'k' differs from sorted(key=lower of the property) (stable)", **rp,
+                    got=[d.get("k") for d in gotk], want=[d.get("k") for d in wantk])
+        gl = self.lam("sort_natural", hs, "k")
+        self.expect("sort_natural-key-equals-lambda", gl[0] == "ok" and same(canon(gotk), gl[1]),
+                    "sort_natural: 'k' differs from sort_natural: i => i.k", **rp,
+                    key_form=[d.get("k") for d in gotk],
+                    lambda_form=[d.get("k") for d in gl[1]] if gl[0] == "ok" else gl)
+
+    # -- ties in the arrow-function sorts; no mutation of the input
+    def tie_laws(self, items: list, keys: list) -> None:
+        """items: distinct comparable-or-not objects; keys[i]: sort key of items[i] (None = missing)."""
+        hs = [({"k": k, "o": it} if k is not None else {"o": it}) for it, k in zip(items, keys)]
+        rp = {"items": items, "keys": keys}
+        homog = len({type(k) for k in keys if k is not None}) <= 1
+        if homog and (all(isinstance(k, str) for k in keys if k is not None) or None not in keys):
+            want = sorted(hs, key=lambda d: d.get("k", MAX_CH))
+            got = self.lam("sort", hs, "k")
+            self.expect("sort-lambda-stable", got[0] == "ok" and same(got[1], canon(want)),
+                        "sort: i => i.k is not the stable sort by the key (ties / missing keys keep input order)",
+                        **rp, got=got)
+        from liquid2.builtin.filters.sorting_filters import _ints
+        wantn = sorted(hs, key=lambda d: _ints(d.get("k", MAX_CH)))
+        gotn = self.lam("sort_numeric", hs, "k")
+        self.expect("sort_numeric-lambda-stable", gotn[0] == "ok" and same(gotn[1], canon(wantn)),
+                    "sort_numeric: i => i.k is not the stable sort by the numeric key", **rp, got=gotn)
+        gotn2 = self.impl.render("{{ x | sort_numeric: 'k' | cap19 }}", {"x": hs})
+        self.expect("sort_numeric-key-stable", gotn2[0] == "ok" and same(gotn2[1], canon(wantn)),
+                    "sort_numeric: 'k' is not the stable sort by the numeric key", **rp, got=gotn2)
+        strs = [str(it) for it in items if isinstance(it, str)]
+        if strs:
+            g1 = self.lam("sort", strs, "size")
+            self.expect("sort-lambda-size-stable", g1[0] == "ok" and g1[1] == sorted(strs, key=len),
+                        "sort: i => i.size on strings is not the stable sort by length", **rp, got=g1)
+            g2 = self.lam("sort_numeric", strs, "size")
+            self.expect("sort_numeric-lambda-size-stable", g2[0] == "ok" and g2[1] == sorted(strs, key=len),
+                        "sort_numeric: i => i.size on strings is not the stable sort by length", **rp, got=g2)
+
+    def uniq_twin_laws(self, vals: list) -> None:
+        """Deduplication is by ==: 5 / 5.0 / true-1 twins, hashes equal up to insertion order."""
+        rp = {"values": vals}
+        missing = object()
+        hs = [({"k": v, "id": i} if v is not missing else {"id": i}) for i, v in
+              enumerate([missing if v == "<missing>" else v for v in vals])]
+
+        def firsts(objs: list, key: Callable[[Any], Any]) -> list:
+            seen: list = []
+            out = []
+            for o in objs:
+                k = key(o)
+                if not any(k is x or k == x for x in seen):
+                    seen.append(k)
+                    out.append(o)
+            return out
+        want = firsts(hs, lambda d: d.get("k", missing))
+        got = self.f("uniq", hs, "k")
+        self.expect("uniq-key-by-equality", len(got) == len(want) and all(a is b for a, b in zip(got, want)),
+                    "uniq: 'k' does not keep the first item of each ==-class of the property", **rp,
+                    got=[d["id"] for d in got], want=[d["id"] for d in want])
+        gl = self.lam("uniq", hs, "k")
+        self.expect("uniq-lambda-by-equality", gl[0] == "ok" and same(gl[1], canon(want)),
+                    "uniq: i => i.k does not keep the first item of each ==-class of the property", **rp,
+                    got=[d["id"] for d in gl[1]] if gl[0] == "ok" else gl, want=[d["id"] for d in want])
+        plain = [({"v": v} if v != "<missing>" else {}) for v in vals]
+        wantp = firsts(plain, lambda d: d)
+        gotp = self.f("uniq", plain)
+        self.expect("uniq-by-equality", len(gotp) == len(wantp) and all(a is b for a, b in zip(gotp, wantp)),
+                    "uniq does not keep the first of each ==-class of hashes", **rp, got=gotp, want=wantp)
+
+    def mutation_laws(self, a: list) -> None:
+        import copy
+        rp = {"a": a}
+        before = copy.deepcopy(a)
+        flat_a = flat(a)
+        r1 = self.impl.render("{{ a | reverse | concat: a | cap19 }}", {"a": a})
+        self.expect("reverse-concat-same-array", r1[0] == "ok" and same(r1[1], canon(flat(list(reversed(flat_a))) + list(a))),
+                    "a | reverse | concat: a is not reversed(a) followed by a", **rp, got=r1)
+        src = ("{% assign r = a | reverse %}{% assign s = a | sort_natural %}{% assign u = a | uniq %}"
+               "{% assign c = a | compact %}{% assign j = a | concat: a %}{{ a | cap19 }}")
+        for _ in range(2):      # rendered twice with the same data
+            r2 = self.impl.render(src, {"a": a})
+            self.expect("filters-do-not-mutate-input", r2[0] == "ok" and same(r2[1], canon(before)) and
+                        same(canon(a), canon(before)),
+                        "an array filter changed the array it was applied to", **rp, got=r2)
+        if a:
+            r3 = self.impl.plain.from_string("{{ a | reverse | first }}|{{ a | first }}|{{ a | last }}")
+            if all(isinstance(v, (str, int)) and not isinstance(v, bool) for v in (a[0], a[-1])):
+                out = r3.render(a=a)
+                self.expect("reverse-then-first", out == f"{a[-1]}|{a[0]}|{a[-1]}" and r3.render(a=a) == out,
+                            "{{ a | reverse | first }}|{{ a | first }}|{{ a | last }} is wrong or changes "
+                            "between two renders", **rp, got=out)
+
     # -- strings
     def str_laws(self, s: str, t: str, sep: str, parts: list[str]) -> None:
         f = self.f
@@ -1328,6 +1466,24 @@ def main(chk: C.Check, build: C.Build) -> None:
         t = g.pick([g.ustr(1), g.ustr(2), s[:1], s[1:3], ""])
         laws.guarded(laws.str_laws, s, t, sep, parts)
 
+    folding = ["Straße", "strasz", "STRASSE", "strasse", "straße", "ﬁ", "fi", "fj", "FI", "ﬂ", "fl", "İ", "I", "ı",
+               "i", "i̇", "ΣΑΣ", "σας", "σασ", "ΟΔΟΣ", "οδος", "ß", "ss", "SS", "st", "ẞ", "K", "k", "ǅ", "ǆ", "Ǆ",
+               "a", "B", "é", "É", "E", "z"]
+    for n in range(max(20, n_law // 5)):
+        words = folding if n == 0 else [fresh(g.pick(folding)) for _ in range(r.choice([2, 3, 5, 8]))]
+        laws.guarded(laws.natural_laws, list(words))
+    for n in range(max(20, n_law // 5)):
+        m = r.choice([2, 3, 4, 6])
+        items = [g.pick([{"n": i}, f"s{i}", f"{'ab'[i % 2]}{'x' * (i % 3)}", [i]]) for i in range(m)]
+        pool = g.pick([[1, 2], ["a", "b"], [1, 2.0, 2, True], ["x10", "x9", "x10"], [3, "y3", 3.0]])
+        keys = [None if r.random() < 0.25 else fresh(g.pick(pool)) for _ in range(m)]
+        laws.guarded(laws.tie_laws, items, keys)
+        twins = [5, 5.0, True, 1, 1.0, "5", [5, 1], [5.0, 1], [5, [True]], {"a": 1, "b": 2}, {"b": 2, "a": 1},
+                 {"a": 1.0, "b": 2}, {"a": 1}, None, "<missing>", "", 0, False]
+        laws.guarded(laws.uniq_twin_laws, [fresh(g.pick(twins)) for _ in range(r.choice([3, 5, 8, 12]))])
+        laws.guarded(laws.mutation_laws, g.pick([g.array("int"), g.array("str"), g.array("nested"),
+                                                   g.array("hash-any"), g.array("any"), [3, 1, 2], ["b", "a"]]))
+
     def big() -> int:
         return r.choice([1, -1]) * r.randrange(10 ** r.choice([0, 1, 2, 5, 18, 19, 20, 40, 60]) + 1)
     for _ in range(n_law * 2):
@@ -1362,9 +1518,13 @@ def main(chk: C.Check, build: C.Build) -> None:
             except TypeError:
                 skipped[name] += 1
                 continue
+            snapshot = copy.deepcopy((left, args))
             d = impl.direct(name, left, args)
             data = {"x": left, **{f"a{i}": a for i, a in enumerate(args)}}
             rn = impl.render(render_src(name, len(args)), data)
+            if not same(canon(snapshot), canon((left, args))):
+                chk.finding("glue:filter-mutated-its-arguments", f"{name} changed its input or arguments",
+                            {"filter": name, "before": snapshot, "after": (left, args)})
             if not same_outcome(to_render(d), rn):
                 glue_bad += 1
                 chk.finding("glue:render-vs-direct-call",
